@@ -118,5 +118,24 @@ pub open spec fn act_qa(p: Partition) -> int { p.live_power.qa@ - p.faulty_power
         bf_nested(*old(self)) ==> bf_nested(*final(self)),
 //@ end
 
+//@ fn actors/miner/src/partition_state.rs Partition::record_missed_post ret=res
+    ensures
+        res.is_ok() ==> ({
+            let (power_delta, penalized, new_faulty) = res->Ok_0;
+            // "a deadline that closes without a proof removes the power of its unproven partitions": after a missed PoSt every live sector is
+            // faulty, nothing is recovering or unproven, the partition contributes no active power, and the delta reported is exactly that loss
+            &&& final(self).faults@ =~= old(self).sectors@.difference(old(self).terminated@)
+            &&& final(self).recoveries@ =~= vstd::set::Set::<u64>::empty() && final(self).unproven@ =~= vstd::set::Set::<u64>::empty()
+            &&& act_raw(*final(self)) == 0 && act_qa(*final(self)) == 0
+            &&& power_delta.raw@ == act_raw(*final(self)) - act_raw(*old(self)) && power_delta.qa@ == act_qa(*final(self)) - act_qa(*old(self))
+            // newly faulty = live power that was not faulty yet; penalised = that plus the failed recoveries
+            &&& new_faulty.raw@ == old(self).live_power.raw@ - old(self).faulty_power.raw@ && new_faulty.qa@ == old(self).live_power.qa@ - old(self).faulty_power.qa@
+            &&& penalized.raw@ == old(self).recovering_power.raw@ + new_faulty.raw@ && penalized.qa@ == old(self).recovering_power.qa@ + new_faulty.qa@
+            &&& final(self).live_power.raw@ == old(self).live_power.raw@ && final(self).live_power.qa@ == old(self).live_power.qa@
+            &&& final(self).sectors == old(self).sectors && final(self).terminated == old(self).terminated
+            &&& bf_nested(*final(self)) && power_ok(*final(self))
+        }),
+//@ end
+
 } // verus!
 fn main() {}
